@@ -580,7 +580,6 @@ def _brief_flat(flat):
 def run(run, ctx):
     for i in ctx.cases(N[ctx.tier]):
         one_case(run, ctx.rng(PID, i))
-    _floors(run, ctx, 1.0 / max(1, ctx.nshards))
 
 
 # about 1/4 of what the quick tier observes on the unchanged tree (seed 0);
@@ -601,10 +600,6 @@ FLOORS_QUICK = {
     "outcome:SchemaErrors": 1000, "custom_method_called:check": 6000,
     "class_depth:3": 180,
 }
-
-
-def _floors(run, ctx, scale):
-    pass
 
 
 def finalize(run, ctx):
